@@ -131,6 +131,24 @@ def run(ctx):
     # R4 energy_dependent_init over a generic 3-row table
     _r4(ctx)
 
+    # mixed valence: the neutral atom and an ion of the same element are both counted
+    compm = {A["element"]: q[0], A["ion_element"]: q[1], A["element2"]: q[2]}
+    gm = spec.unpack(I.call(ns, [dict(compm)], {"density": rho, "wavelength": lam}))
+    mm = [m[0], mass_sym("Fe") - 2 * me, m[2]]
+    wm = spec.compound(q, mm, [b[0], b[0], b[2]], [s[0], s[0], s[2]], rho, lam)
+    for k in ("sld_re", "inc_xs", "penetration"):
+        eq(ctx, "R2", f"{k}: compound with Fe and Fe2+ counts both", gm[k], wm[k], cs, nonzero=[rho * sum(a * c for a, c in zip(q, mm))])
+    # caller-owned arrays are neither updated in place nor retained by reference
+    from ptstat.taint import caller_array_hazards
+    nfun = 0
+    for qual, fn in ctx.src.funcs.items():
+        if fn.module == "nsf" and isinstance(fn.node, ast.FunctionDef):
+            nfun += 1
+            for why, node in caller_array_hazards(fn.node):
+                ctx.fail("R3", f"{qual}: {why}", f"{ast.unparse(node)[:80]}: results then depend on what the caller does with its array between calls",
+                         f"{ctx.src.where('nsf', node)} {qual}")
+    ctx.ok("R3", "no neutron calculator updates a caller-supplied array in place or keeps a reference to it", site="periodictable/nsf.py",
+           sample={"functions": nfun})
     # R5 missing data
     for label, attrs in (("b_c is None", dict(b_c=None)), ("number density is None", dict(_number_density=None))):
         w2 = neutron_world(ctx)
@@ -174,6 +192,10 @@ def run(ctx):
     ctx.check(not bad, "R7", "every absorption cell is >= 0 (so Im b_c <= 0)", f"negative absorption in {bad}",
               "periodictable/nsf.py nsftable", sample={"rows": len(rows), "absorption cells": nabs})
     badim = [(k, r) for k, vals in ed.items() for r in vals if r[2] > 0]
+    import math
+    incons = [(k, r) for k, vals in ed.items() for r in vals if abs(math.hypot(r[1], r[2]) - r[3]) > 0.011]
+    ctx.check(not incons, "R7", "every row of the energy-dependent tables is self-consistent: |a| = hypot(Re a, Im a) to the printed precision",
+              f"inconsistent rows {incons[:3]} (a mistyped cell)", "periodictable/nsf_tables.py", sample={"rows": sum(len(v) for v in ed.values())})
     ctx.check(not badim, "R7", "every tabulated Im(a) of the energy-dependent tables is <= 0",
               f"positive imaginary part at {badim[:3]}", "periodictable/nsf_tables.py",
               sample={"tables": len(ed), "rows": sum(len(v) for v in ed.values())})
